@@ -374,3 +374,48 @@ func H_C16_redundant_parens() {
 	vAssert(err == nil && astEqual(got.(Expression), a), text+": redundant parentheses do not change the tree")
 	vCover("reached")
 }
+
+// H_C16_keywords: an identifier that merely starts with a keyword is an
+// identifier wherever an identifier may stand: the printer never has to
+// avoid such names. (A keyword directly followed by '(' or '"' needs no
+// blank either way; that is H_C16_roundtrip's layout.)
+var keywordsC16 = []string{"not", "and", "or", "in", "is", "any", "all", "as", "matches", "contains", "empty"}
+
+func H_C16_keywords() {
+	kw := keywordsC16[vChoose(len(keywordsC16))]
+	b := vStringN(1)
+	vAssume(b[0] >= 'a' && b[0] <= 'z' || b[0] >= 'A' && b[0] <= 'Z' || b[0] >= '0' && b[0] <= '9' || b[0] == '_')
+	id := kw + b
+	sel := func(n string) Selector { return Selector{Type: SelectorTypeBexpr, Path: []string{n}} }
+	leaf := func(n string) *MatchExpression {
+		return &MatchExpression{Selector: sel(n), Operator: MatchEqual, Value: &MatchValue{Raw: "1"}}
+	}
+	var text string
+	var want Expression
+	switch vChoose(8) {
+	case 0:
+		text, want = id+" == 1", leaf(id)
+	case 1:
+		text, want = "not "+id+" == 1", &UnaryExpression{Operator: UnaryOpNot, Operand: leaf(id)}
+	case 2:
+		text, want = "p == 1 and "+id+" == 1", &BinaryExpression{Left: leaf("p"), Operator: BinaryOpAnd, Right: leaf(id)}
+	case 3:
+		text, want = id+" == 1 or p == 1", &BinaryExpression{Left: leaf(id), Operator: BinaryOpOr, Right: leaf("p")}
+	case 4:
+		text, want = "p == "+id, &MatchExpression{Selector: sel("p"), Operator: MatchEqual, Value: &MatchValue{Raw: id}}
+	case 5:
+		text = "any " + id + " as " + id + " { " + id + " == 1 }"
+		want = &CollectionExpression{Op: CollectionOpAny, Selector: sel(id), Inner: leaf(id), NameBinding: CollectionNameBinding{Mode: CollectionBindDefault, Default: id}}
+	case 6:
+		text, want = id+" in "+id, &MatchExpression{Selector: sel(id), Operator: MatchIn, Value: &MatchValue{Raw: id}}
+	default:
+		text, want = "("+id+" is empty)", &MatchExpression{Selector: sel(id), Operator: MatchIsEmpty}
+	}
+	got, err := Parse("", []byte(text))
+	vAssert(err == nil, "an identifier that starts with a keyword is accepted: "+kw+"_")
+	if err == nil {
+		g, ok := got.(Expression)
+		vAssert(ok && astEqual(g, want), "an identifier that starts with a keyword parses as an identifier: "+kw+"_")
+	}
+	vCover("reached")
+}
